@@ -80,7 +80,10 @@ def rule_zero_matches(run, prog):
                     if r is not None and r[0] is True and r[1] == 0:
                         zero.append((combo, col, scope))
         except Unsupported as e:
-            raise Undecided(f"{c.name}.run is outside the evaluable subset: {e}")
+            # this primary alone stays undecided (recorded and printed); the others are still decided
+            run.undecided.append({"rule_function": f"rule_zero_matches[{c.name}]",
+                                  "reason": f"{c.name}.run is outside the evaluable subset: {e}"})
+            continue
         n_ob += 1
         unshadowed = None
         higher = order[:order.index(c.name)]
